@@ -15,12 +15,34 @@ Definition const_type_and_value (l : literal) : rprim * literal :=
   | LAbstractFloat v => (PF64, LF64 v)
   end.
 
-Definition gen_const (c : constant) : option out_const :=
+(** naga [Literal::zero] *)
+Definition literal_zero (s : scalar) : option literal :=
+  match sk s, sw s with
+  | SkFloat, 8%N => Some (LF64 0)
+  | SkFloat, 4%N => Some (LF32 0)
+  | SkSint, 4%N => Some (LI32 0)
+  | SkUint, 4%N => Some (LU32 0)
+  | SkSint, 8%N => Some (LI64 0)
+  | SkUint, 8%N => Some (LU64 0)
+  | SkBool, _ => Some (LBool false)
+  | _, _ => None
+  end.
+
+Definition gen_const (m : module) (c : constant) : option out_const :=
   match c_name c with
   | None => None
   | Some n =>
       match c_init c with
       | GLiteral l => let '(t, v) := const_type_and_value l in Some (mkOutConst n t v)
+      | GZero =>
+          match get_inner m (c_ty c) with
+          | Some (TScalar s) =>
+              match literal_zero s with
+              | Some l => let '(t, v) := const_type_and_value l in Some (mkOutConst n t v)
+              | None => None
+              end
+          | _ => None
+          end
       | GOther => None
       end
   end.
@@ -31,7 +53,7 @@ Fixpoint filter_map {A B} (f : A -> option B) (l : list A) : list B :=
   | x :: t => match f x with Some y => y :: filter_map f t | None => filter_map f t end
   end.
 
-Definition consts (m : module) : list out_const := filter_map gen_const (constants m).
+Definition consts (m : module) : list out_const := filter_map (gen_const m) (constants m).
 
 (** [override_key]. NB: Rust evaluates [o.name.clone().unwrap()] eagerly (it is the argument of
     [unwrap_or]), so an unnamed override panics even when it has an @id. *)
